@@ -47,7 +47,13 @@ func mentions(v ssa.Value, pred func(ssa.Value) bool, d int) bool {
 			}
 		}
 	case *ssa.Call:
-		if _, ok := x.Call.Value.(*ssa.Builtin); ok {
+		_, builtin := x.Call.Value.(*ssa.Builtin)
+		// a module-local helper computing a value from its arguments (ceilDiv(length, int64(info.PieceLength)))
+		local := false
+		if h := x.Call.StaticCallee(); h != nil && !x.Call.IsInvoke() && strings.HasPrefix(funcPkgPath(h), modPath) {
+			local = true
+		}
+		if builtin || local {
 			for _, a := range x.Call.Args {
 				if mentions(a, pred, d+1) {
 					return true
@@ -445,6 +451,28 @@ func c13R1(r *Report, rule string) {
 			}
 		}
 		key := "MetadataComplete/" + rq.id
+		if !found && rq.id == "G8-block-count-fits" {
+			// equivalent formulation: explicit range checks that leave the size of every byte array made here within
+			// [0, 2^32-1] (chunks < 0 || chunks > math.MaxUint32 || chunks > math.MaxInt)
+			env := &IntEnv{}
+			nMake, okAll := 0, true
+			allInstrs(mc, func(in ssa.Instruction) {
+				ms, ok := in.(*ssa.MakeSlice)
+				if !ok {
+					return
+				}
+				if bt, ok := ms.Type().Underlying().(*types.Slice); ok {
+					if b, ok := bt.Elem().Underlying().(*types.Basic); ok && b.Kind() == types.Uint8 {
+						nMake++
+						iv := env.At(ms.Len, ms.Block())
+						if iv.Lo < 0 || iv.Hi > maxMakeLen(p) {
+							okAll = false
+						}
+					}
+				}
+			})
+			found = nMake > 0 && okAll
+		}
 		if found {
 			r.Ok(rule, key, at.Pos(), "%s: a rejecting guard dominates its use", rq.ok)
 		} else {
@@ -574,6 +602,10 @@ func c13R2(r *Report) {
 					cv, ok := y.(*ssa.Convert)
 					return op == token.EQL && ok && mentions(cv, func(v ssa.Value) bool { return v == x }, 0)
 				})
+				if !guarded {
+					iv := (&IntEnv{}).At(ms.Len, ms.Block())
+					guarded = iv.Lo >= 0 && iv.Hi <= maxMakeLen(p)
+				}
 				r.Check(guarded, "R2", "MetadataComplete/make(inFlight,chunks)", ms.Pos(), "the in-flight array is sized after the fits-in-int check", "the in-flight array is allocated without the preceding fits-in-int check on the block count (negative or huge sizes panic)")
 			}
 		}
@@ -683,7 +715,7 @@ func c13R3(r *Report) {
 				pb := ph.Block().Preds[i]
 				// the nil edge needs: len(t.trackers) == 1 && len(t.trackers[0]) == 1   (or len(t.trackers) == 0)
 				outer, inner := false, false
-				for _, g := range append(guardsOf(pb), edgeGuard(pb, ph.Block())...) {
+				for _, g := range guardsOnEdge(pb, ph.Block()) {
 					g = g.norm()
 					bo, ok := g.Cond.(*ssa.BinOp)
 					if !ok || !g.Pol || bo.Op != token.EQL {
@@ -702,16 +734,26 @@ func c13R3(r *Report) {
 						continue
 					}
 					arg := c.Call.Args[0]
+					// the tracker table itself, or a local table made with one entry per tier (make([][]string, len(t.trackers)))
+					tiersLike := func(v ssa.Value) bool {
+						if ms, ok := v.(*ssa.MakeSlice); ok {
+							return mentions(ms.Len, trackers, 0)
+						}
+						if ld, ok := v.(*ssa.UnOp); ok && ld.Op == token.MUL {
+							return trackers(ld.X)
+						}
+						return mentions(v, trackers, 0)
+					}
 					if ld, ok := arg.(*ssa.UnOp); ok && ld.Op == token.MUL {
-						if _, isIdx := ld.X.(*ssa.IndexAddr); isIdx && mentions(ld.X.(*ssa.IndexAddr).X, trackers, 0) {
+						if ia, isIdx := ld.X.(*ssa.IndexAddr); isIdx && tiersLike(ia.X) {
 							inner = true
 							continue
 						}
-						if trackers(ld.X) {
-							outer = true
-							if k == 0 {
-								inner = true
-							}
+					}
+					if tiersLike(arg) {
+						outer = true
+						if k == 0 {
+							inner = true
 						}
 					}
 				}
@@ -746,7 +788,16 @@ func c13R4(r *Report) {
 	}
 	r.Fn(rm)
 	n := 0
-	allInstrs(rm, func(in ssa.Instruction) {
+	var body []ssa.Instruction
+	for _, f := range localCallees(p, rm, []string{"tor"}) {
+		// ReadMagnet and the helpers of package tor it reaches; constructors of other subsystems are not magnet parsing
+		if f != rm && (f.Name() == "New" || f.Signature.Recv() != nil) {
+			continue
+		}
+		allInstrs(f, func(in ssa.Instruction) { body = append(body, in) })
+	}
+	for _, in := range body {
+		func(in ssa.Instruction) {
 		sl, ok := in.(*ssa.Slice)
 		if !ok || sl.Low == nil {
 			return
@@ -772,7 +823,20 @@ func c13R4(r *Report) {
 			}
 		}
 		r.Check(guarded, "R4", fmt.Sprintf("ReadMagnet/v[%d:]", k), sl.Pos(), "the slice is dominated by HasPrefix with a prefix at least as long", "the string is sliced at a constant offset without a dominating prefix test of at least that length")
-	})
-	r.Sentinel("R4", n, 1)
+		}(in)
+	}
+	// a parser written without constant-offset slicing (strings.CutPrefix) has nothing to guard: zero instances is
+	// a legitimate state of this rule, so it carries no vacuity sentinel
+	if n == 0 {
+		r.Ok("R4", "ReadMagnet/no-constant-offset-slicing", rm.Pos(), "ReadMagnet and its helpers slice no string at a constant offset")
+	}
 	_ = strings.ToLower
+}
+
+// maxMakeLen: the largest block count that fits both uint32 and the platform's int.
+func maxMakeLen(p *Prog) int64 {
+	if p.Variant == "linux386" {
+		return 1<<31 - 1
+	}
+	return 1<<32 - 1
 }
